@@ -151,4 +151,38 @@ theorem c19_gen_Value_Values_eq (t : Gen.C19.Value α) (fmtF : α → List Nat) 
   simp [Gen.C19.Value_Values, Gen.C19.Value_Min, Gen.C19.Value_Max, Gen.C19.Value_Avg, Gen.C19.Value_Sum,
     Gen.C19.Value_Dev, Value.values, Value.ofGen]
 
+theorem splitColon_ne_nil : ∀ bs : List Nat, splitColon bs ≠ []
+  | [] => by simp [splitColon]
+  | c :: r => by
+    have ih := splitColon_ne_nil r
+    unfold splitColon
+    cases h : splitColon r with
+    | nil => exact absurd h ih
+    | cons a t => by_cases hc : c = 58 <;> simp [hc]
+
+/-- **`getStartStop` as translated** (the flag variable `simRange` read as a parameter, `strconv.Atoi` as the pair
+it returns) never panics — `strings.Split` returns at least one field — and computes the model's `getStartStop`,
+the function `Model/C19Files.lean`'s `runTests` (and with it `c19_runtests_files`, `c19_runtests_header_once`)
+decides with which runs are executed. -/
+theorem c19_gen_getStartStop_eq (rcs : Int) (simRange : List Nat) :
+    Gen.C19.getStartStop (α := α) rcs simRange = some (getStartStop simRange rcs) := by
+  unfold Gen.C19.getStartStop getStartStop
+  cases h : splitColon simRange with
+  | nil => exact absurd h (splitColon_ne_nil _)
+  | cons f0 rest =>
+    simp only [Gen.Rt.idx, Gen.Rt.len]
+    cases h0 : (atoiPair f0).2 with
+    | true => simp [h0]
+    | false =>
+      cases rest with
+      | nil => simp [h0]
+      | cons f1 t =>
+        cases h1 : (atoiPair f1).2 with
+        | true =>
+          have hl : (1 : Int) < (t.length : Int) + 1 + 1 := by omega
+          simp [h0, h1, hl]
+        | false =>
+          have hl : (1 : Int) < (t.length : Int) + 1 + 1 := by omega
+          simp [h0, h1, hl]
+
 end C19
